@@ -306,3 +306,207 @@ pub mod tables {
         }
     }
 }
+
+/// Wrappers for the selection logic over file metadata (`src/versioning/{file_metadata,utils,
+/// version,version_builder}.rs`, `src/compaction/manifest.rs`).
+pub mod versions {
+    use std::sync::Arc;
+
+    use crate::compaction::manifest::CompactionManifest;
+    use crate::config::MAX_NUM_LEVELS;
+    use crate::key::InternalKey;
+    use crate::table_cache::TableCache;
+    use crate::utils::linked_list::{LinkedList, SharedNode};
+    use crate::versioning::file_metadata::FileMetadata;
+    use crate::versioning::version::Version;
+    use crate::versioning::version_builder::VersionBuilder;
+    use crate::versioning::VersionChangeManifest;
+    use crate::{DbOptions, Operation};
+
+    /// (user key, sequence, operation tag)
+    pub type Key = (Vec<u8>, u64, u8);
+    /// (file number, file size, smallest key, largest key)
+    pub type File = (u64, u64, Key, Key);
+
+    fn mk_key(k: &Key) -> InternalKey {
+        InternalKey::new(
+            k.0.clone(),
+            k.1,
+            if k.2 == 0 {
+                Operation::Delete
+            } else {
+                Operation::Put
+            },
+        )
+    }
+
+    fn un_key(k: &InternalKey) -> Key {
+        (
+            k.get_user_key().to_vec(),
+            k.get_sequence_number(),
+            k.get_operation() as u8,
+        )
+    }
+
+    fn mk_file(f: &File) -> Arc<FileMetadata> {
+        let mut m = FileMetadata::new(f.0);
+        m.set_file_size(f.1);
+        m.set_smallest_key(Some(mk_key(&f.2)));
+        m.set_largest_key(Some(mk_key(&f.3)));
+        Arc::new(m)
+    }
+
+    fn un_file(f: &FileMetadata) -> File {
+        (
+            f.file_number(),
+            f.get_file_size(),
+            un_key(f.smallest_key()),
+            un_key(f.largest_key()),
+        )
+    }
+
+    pub struct VVersion {
+        options: DbOptions,
+        list: LinkedList<Version>,
+        node: SharedNode<Version>,
+    }
+
+    impl VVersion {
+        pub fn new(options: DbOptions, levels: &[Vec<File>]) -> Self {
+            let table_cache = Arc::new(TableCache::new(options.clone(), 10));
+            let mut version = Version::new(options.clone(), &table_cache, 0, 0);
+            for (level, files) in levels.iter().enumerate().take(MAX_NUM_LEVELS) {
+                version.files[level] = files.iter().map(mk_file).collect();
+            }
+            let mut list = LinkedList::<Version>::new();
+            let node = list.push(version);
+            VVersion {
+                options,
+                list,
+                node,
+            }
+        }
+
+        pub fn levels(&self) -> Vec<Vec<File>> {
+            self.node
+                .read()
+                .element
+                .files
+                .iter()
+                .map(|fs| fs.iter().map(|f| un_file(f)).collect())
+                .collect()
+        }
+
+        pub fn has_overlap_in_level(&self, level: usize, lo: Option<&[u8]>, hi: Option<&[u8]>) -> bool {
+            self.node.read().element.has_overlap_in_level(level, lo, hi)
+        }
+
+        pub fn get_overlapping_files(&self, target: &Key) -> Vec<Vec<File>> {
+            self.node
+                .read()
+                .element
+                .get_overlapping_files(&mk_key(target))
+                .iter()
+                .map(|fs| fs.iter().map(|f| un_file(f)).collect())
+                .collect()
+        }
+
+        pub fn overlapping_inputs(&self, level: usize, lo: Option<&Key>, hi: Option<&Key>) -> Vec<File> {
+            let lo = lo.map(mk_key);
+            let hi = hi.map(mk_key);
+            self.node
+                .read()
+                .element
+                .get_overlapping_compaction_inputs(level, lo.as_ref()..hi.as_ref())
+                .into_iter()
+                .map(|f| un_file(f))
+                .collect()
+        }
+
+        pub fn pick_level_for_memtable_output(&self, lo: &[u8], hi: &[u8]) -> usize {
+            self.node.read().element.pick_level_for_memtable_output(lo, hi)
+        }
+
+        /// `finalize_compaction_inputs` for a compaction of `level` seeded with the files whose
+        /// numbers are in `seed`: (inputs0, inputs1, is_trivial_move, compaction pointer,
+        /// answers of `is_base_level_for_key` for `base_keys` in the given order).
+        pub fn finalize_inputs(
+            &self,
+            level: usize,
+            seed: &[u64],
+            base_keys: &[Vec<u8>],
+        ) -> (Vec<File>, Vec<File>, bool, Key, Vec<bool>) {
+            let mut manifest = CompactionManifest::new(&self.options, level);
+            let files: Vec<Arc<FileMetadata>> = self.node.read().element.files[level]
+                .iter()
+                .filter(|f| seed.contains(&f.file_number()))
+                .cloned()
+                .collect();
+            manifest.set_input_version(Arc::clone(&self.node));
+            manifest.set_compaction_level_files(files);
+            let pointer = manifest.finalize_compaction_inputs();
+            let base: Vec<bool> = base_keys
+                .iter()
+                .map(|u| manifest.is_base_level_for_key(&InternalKey::new(u.clone(), 1, Operation::Put)))
+                .collect();
+            (
+                manifest
+                    .get_compaction_level_files()
+                    .iter()
+                    .map(|f| un_file(f))
+                    .collect(),
+                manifest
+                    .get_parent_level_files()
+                    .iter()
+                    .map(|f| un_file(f))
+                    .collect(),
+                manifest.is_trivial_move(),
+                un_key(&pointer),
+                base,
+            )
+        }
+
+        /// `VersionBuilder`: apply one change manifest (deleted (level, number), added (level,
+        /// file)) on top of this version.
+        pub fn apply_edit(&self, deleted: &[(usize, u64)], added: &[(usize, File)]) -> Vec<Vec<File>> {
+            let mut change = VersionChangeManifest::default();
+            for (level, number) in deleted {
+                change.remove_file(*level, *number);
+            }
+            for (level, f) in added {
+                change.add_file(*level, f.0, f.1, mk_key(&f.2)..mk_key(&f.3));
+            }
+            let mut builder = VersionBuilder::new();
+            builder.accumulate_changes(&change);
+            let mut pointers: [Option<InternalKey>; MAX_NUM_LEVELS] = Default::default();
+            let version = builder.apply_changes(&self.node, 0, 0, &mut pointers);
+            version
+                .files
+                .iter()
+                .map(|fs| fs.iter().map(|f| un_file(f)).collect())
+                .collect()
+        }
+
+        pub fn list_len(&self) -> usize {
+            self.list.len()
+        }
+    }
+
+    pub fn key_range_for_files(files: &[File]) -> (Key, Key) {
+        let fs: Vec<Arc<FileMetadata>> = files.iter().map(mk_file).collect();
+        let r = FileMetadata::get_key_range_for_files(&fs);
+        (un_key(&r.start), un_key(&r.end))
+    }
+
+    pub fn key_range_for_two(a: &[File], b: &[File]) -> (Key, Key) {
+        let fa: Vec<Arc<FileMetadata>> = a.iter().map(mk_file).collect();
+        let fb: Vec<Arc<FileMetadata>> = b.iter().map(mk_file).collect();
+        let r = FileMetadata::get_key_range_for_multiple_levels(&[&fa, &fb]);
+        (un_key(&r.start), un_key(&r.end))
+    }
+
+    pub fn find_file_with_upper_bound_range(files: &[File], target: &Key) -> Option<usize> {
+        let fs: Vec<Arc<FileMetadata>> = files.iter().map(mk_file).collect();
+        crate::versioning::utils::find_file_with_upper_bound_range(&fs, &mk_key(target))
+    }
+}
